@@ -299,7 +299,8 @@ func searchFieldId(p *thrift.BinaryProtocol, id thrift.FieldID) (tt thrift.Type,
 			return 0, start, errNode(meta.ErrRead, "", err)
 		}
 		if t == thrift.STOP {
-			return thrift.STRUCT, start, errNotFound
+			// not found: report the position of this struct's STOP, where a new field can be inserted
+			return thrift.STRUCT, p.Read - 1, errNotFound
 		}
 		if id == thrift.FieldID(i) {
 			start = p.Read
